@@ -15,9 +15,11 @@ and `str.isspace` (the latter over every code point) by the correspondence.
 
 A student execution is abstracted to the trace of what it did to standard I/O:
 `write text` (print in any form, sys.stdout.write — `text` is exactly what reached the
-stream) and `read prompt` (a call of `input`).  The condition under which `append_output` touches the
+stream), `read prompt` (a call of `input`) and `readKept prompt` (a call of an `input` that an
+earlier execution handed out and student code kept).  The condition under which `append_output` touches the
 line view (a boolean expression, `GuardExpr`), the end of the queue the mocked `input`
-pops and the default input are read from the source - and measured on a fresh sandbox -
+pops, the default input and WHEN the mocked `input` resolves the queue (at each call / when
+it is created) are read from the source - and measured on a fresh sandbox -
 by harness/translate_sandboxio.py (`PedalModel/Gen/SandboxIOGen.lean`).
 -/
 namespace Pedal.SandboxIO
@@ -47,10 +49,15 @@ def splitNL : Str → List Str
 /-- the entries one execution's text contributes to the line view -/
 def linesOf (text : Str) : List Str := (splitNL (rstrip text)).map rstrip
 
-/-- What student code does to standard I/O, in order. -/
+/-- What student code does to standard I/O, in order.  Student code can keep what an execution
+gave it and use it in a later one (`ask = input`, a helper module imported by an earlier execution,
+a generator created in one execution and advanced in the next): `readKept` is a call of `input`
+through such a reference, i.e. of the tracker function an EARLIER execution installed.  (A kept
+`print` is CPython's own `print`, which looks `sys.stdout` up when it is called: it is a `write`.) -/
 inductive Event where
   | write (text : Str)
   | read (prompt : Str)
+  | readKept (prompt : Str)
   deriving Repr
 
 /-- The callables the harness installs with `set_input(callable)`. -/
@@ -129,10 +136,31 @@ def popQueue : List Str → Option (Str × List Str)
     | .back => ((x :: q).getLast?).map fun y => (y, (x :: q).dropLast)
     | .unknown => Option.none
 
-/-- `_input_tracker` for every `read`, `StringIO.write` for every `write`. -/
+/-- what a tracker that does NOT look the queue up at call time serves: some object the model does not
+follow (the obligation `lookup_at_call` rules this case out; the sentinel makes the correspondence
+disagree on every kept read if it is ever executed) -/
+def staleStr : Str := "\x00<value from a stale queue object>".toList
+
+/-- a tracker kept from an earlier execution behaves exactly like the one installed now iff it resolves
+the sandbox's queue at each call (translated + measured fact `queueLookup`) -/
+def keptIsLive : Bool :=
+  match queueLookup with
+  | .atCall => true
+  | _ => false
+
+/-- `_input_tracker` for every `read` / `readKept`, `StringIO.write` for every `write`. -/
 def runEvents : InputSrc → List Event → Res
   | src, [] => { src := src, buf := [], got := [] }
   | src, .write t :: es => (runEvents src es).out t
+  | .callable f, .readKept p :: es =>
+    if keptIsLive then (runEvents (.callable f) es).inp (f.apply p, false)
+    else ((runEvents (.callable f) es).inp (staleStr, false)).out (p ++ ['\n'])
+  | .queue q, .readKept p :: es =>
+    if keptIsLive then
+      match popQueue q with
+      | some (x, q') => ((runEvents (.queue q') es).inp (x, true)).out (p ++ ['\n'])
+      | Option.none => ((runEvents (.queue q) es).inp (defaultStr, false)).out (p ++ ['\n'])
+    else ((runEvents (.queue q) es).inp (staleStr, false)).out (p ++ ['\n'])
   | .callable f, .read p :: es => (runEvents (.callable f) es).inp (f.apply p, false)
   | .queue q, .read p :: es =>
     match popQueue q with
@@ -243,6 +271,7 @@ def parseArg : List String → Option (InputArg × List String)
 def parseEvent : List String → Option (Event × List String)
   | "w" :: t :: ts => (decS t).map (Event.write ·, ts)
   | "r" :: t :: ts => (decS t).map (Event.read ·, ts)
+  | "rk" :: t :: ts => (decS t).map (Event.readKept ·, ts)
   | _ => Option.none
 
 /-- `E (-|<arg>) <nev> ev*` | `C` | `S <0/1> <arg>` | `Q <k> str*` | `I` -/
